@@ -21,7 +21,7 @@ PROPS = [f"C{i:02d}" for i in range(1, 21)]
 
 def load_corpus():
     out = []
-    for fn, kind in (("mutants1.py", "mutant"), ("mutants2.py", "mutant"), ("mutants3.py", "mutant"),
+    for fn, kind in (("mutants1.py", "mutant"), ("mutants2.py", "mutant"), ("mutants3.py", "mutant"), ("mutants4.py", "mutant"),
                      ("twins.py", "twin"), ("twins2.py", "twin")):
         p = os.path.join(HERE, "corpus", fn)
         if not os.path.exists(p):
@@ -138,7 +138,25 @@ def run_for(pid, seed=0):
             noisy.append(m["id"])
         else:
             und.append(m["id"])
+    # seeded defects (sub-agent written patches) recorded as detected by this property's check
+    seed_fired, seed_missed = [], []
+    det_path = os.path.join(os.path.dirname(HERE), "seeded", "DETECTION.json")
+    if os.path.exists(det_path):
+        from sa import seedtool
+        with open(det_path) as f:
+            det = json.load(f)
+        names = sorted(n for n, v in det.items() if pid in v.get("fires", []))
+        if names:
+            from concurrent.futures import ProcessPoolExecutor as _PPE
+            with _PPE(max_workers=min(16, len(names))) as ex:
+                for name, r in ex.map(seedtool._detect_one, names):
+                    if r.get(pid, {}).get("code") == 1:
+                        seed_fired.append(name)
+                    else:
+                        seed_missed.append(name)
     weak = []
+    if seed_missed:
+        weak.append(f"seeded defects no longer detected: {', '.join(seed_missed)}")
     if missed:
         weak.append(f"mutants not detected: {', '.join(missed)}")
     if noisy:
@@ -146,9 +164,10 @@ def run_for(pid, seed=0):
     out = {
         "selftest": {"mutants_fired": len(fired), "mutants_total": len(muts) - len([s for s in stale if s in {m['id'] for m in muts}]),
                      "twins_silent": len(silent), "twins_total": len(twins) - len([s for s in stale if s in {m['id'] for m in twins}]),
-                     "undecided_variants": und, "stale_variants": stale, "fired": fired, "missed": missed, "noisy": noisy},
+                     "undecided_variants": und, "stale_variants": stale, "fired": fired, "missed": missed, "noisy": noisy,
+                     "seeded_fired": seed_fired, "seeded_missed": seed_missed},
         "selftest_summary": f"SELFTEST property={pid} mutants_fired={len(fired)}/{len(muts)} twins_silent={len(silent)}/{len(twins)} "
-                            f"undecided={len(und)} stale={len(stale)}",
+                            f"seeded_fired={len(seed_fired)}/{len(seed_fired) + len(seed_missed)} undecided={len(und)} stale={len(stale)}",
         "selftest_weak": weak,
     }
     return out
